@@ -223,6 +223,100 @@ def one_case(ctx: Ctx, stream: str, i: int) -> None:
              sample={'shape': shape, 'index': str(idx)[:200], 'out_shape': list(want0.shape), 'positions': pos[:24]})
 
 
+def rule_case(ctx: Ctx, stream: str, i: int) -> None:
+    """TransposeIndexRule in isolation: ONE axis indexed by an integer array of rank 0-3 (every other axis taken
+    whole), few or many distinct values, negative aliases, repeats; P.T @ P must reduce to the diagonal of the
+    selection multiplicities, and that diagonal must be the model's `ruleCoverage`."""
+    from furax._base.core import CompositionOperator
+    from furax._base.diagonal import DiagonalOperator
+    from furax._base.indices import IndexOperator
+    rng = ctx.rng(stream, i)
+    nd = rng.randint(1, 3)
+    shape = tuple(rng.choice([2, 3, 5, 7, 9]) for _ in range(nd))
+    axis = rng.randrange(nd)
+    d = shape[axis]
+    rank = rng.choice([0, 1, 1, 2, 2, 3])
+    ish = tuple(rng.choice([1, 2, 3, 4]) for _ in range(rank))
+    size = int(np.prod(ish))
+    mode = rng.choice(['random', 'distinct', 'negative', 'repeat'])
+    if mode == 'distinct':
+        base = list(range(d))
+        rng.shuffle(base)
+        vals = [base[k % d] for k in range(size)]
+    elif mode == 'negative':
+        vals = [rng.randint(-d, -1) if rng.random() < 0.6 else rng.randint(0, d - 1) for _ in range(size)]
+    elif mode == 'repeat':
+        v = rng.randint(-d, d - 1)
+        vals = [v if rng.random() < 0.7 else rng.randint(-d, d - 1) for _ in range(size)]
+    else:
+        vals = [rng.randint(-d, d - 1) for _ in range(size)]
+    arr = np.array(vals, dtype=np.int32).reshape(ish)
+    form = rng.choice(['slices', 'ellipsis-before', 'ellipsis-after', 'bare'])
+    if form == 'slices' or (form == 'bare' and axis != 0):
+        idx = tuple(arr if a == axis else slice(None) for a in range(nd))
+    elif form == 'ellipsis-before':
+        idx = (Ellipsis, arr) + tuple(slice(None) for _ in range(axis + 1, nd))
+    elif form == 'ellipsis-after':
+        idx = tuple(slice(None) for _ in range(axis)) + (arr, Ellipsis)
+    else:
+        idx = (arr,)
+    nleaf = rng.choice([1, 1, 2])
+    dt = rng.choice([jnp.float32, jnp.float32, jnp.float64 if jax.config.jax_enable_x64 else jnp.float16])
+    structure = [jax.ShapeDtypeStruct(shape, dt) for _ in range(nleaf)]
+    if nleaf == 1:
+        structure = structure[0]
+    cfg = {'shape': shape, 'axis': axis, 'index_shape': ish, 'values': vals[:40], 'form': form, 'nleaf': nleaf,
+           'mode': mode}
+    x0 = np.arange(int(np.prod(shape)), dtype=np.float64).reshape(shape)
+    stn, want0 = safe(lambda: x0[idx])
+    if stn != 'ok':
+        ctx.count('rule:numpy-rejects')
+        return
+    jidx = tuple(to_jax(e) for e in idx)
+    st, op = safe(lambda: IndexOperator(jidx, in_structure=structure))
+    if st != 'ok':
+        ctx.fail(stream, i, f'index-ctor-raises:{st}:out_structure=none', str(op)[:150], cfg)
+        return
+    if len(op.indexed_axes) != 1:
+        ctx.disagree(stream, i, f'indexed_axes {op.indexed_axes} for one integer array', cfg)
+        return
+    real_axis = op.indexed_axes[0]
+    e2 = CompositionOperator([op.T, op])
+    st, r2 = safe(e2.reduce)
+    if st != 'ok':
+        ctx.fail(stream, i, f'reduce-raises:{st}', f'P.T @ P: {str(r2)[:200]}', cfg)
+        return
+    if not isinstance(r2, DiagonalOperator):
+        ctx.fail(stream, i, 'pTp-not-simplified', f'P.T @ P with a single indexed axis reduced to {type(r2).__name__}', cfg)
+        return
+    pos_axis = [(v + d) % d for v in vals]
+    mult = np.bincount(pos_axis, minlength=d)
+    got = [float(v) for v in np.asarray(r2._diagonal).ravel()]
+    rep = ctx.model.ask(['coverage-rule', str(d), [str(int(v)) for v in vals]])
+    if [int(v) for v in rep[1]] != [int(round(v)) for v in got] or len(got) != d:
+        ctx.disagree(stream, i, f'coverage: implementation {got} model {rep[1]}', cfg)
+    if len(got) != d or [int(round(v)) for v in got] != mult.tolist():
+        ctx.fail(stream, i, 'pTp-not-multiplicities', f'reduce(P.T @ P) has diagonal {got}, the selection '
+                 f'multiplicities along axis {real_axis} are {mult.tolist()}', cfg)
+    # the reduced operator applied to data equals the unreduced one (scatter-add of the gather)
+    x = jax.tree.unflatten(jax.tree.structure(structure),
+                           [jnp.asarray(x0 + 1, dtype=dt) for _ in range(nleaf)])
+    st1, y1 = safe(r2.mv, x)
+    st2, y2 = safe(e2.mv, x)
+    if st1 != 'ok' or st2 != 'ok':
+        ctx.fail(stream, i, f'pTp-apply-raises:{st1}:{st2}', str(y1 if st1 != 'ok' else y2)[:150], cfg)
+    else:
+        for a, b in zip(jax.tree.leaves(y1), jax.tree.leaves(y2)):
+            if a.shape != b.shape or not np.allclose(np.asarray(a, dtype=np.float64), np.asarray(b, dtype=np.float64),
+                                                     rtol=2e-2 if dt == jnp.float16 else 1e-5):
+                ctx.fail(stream, i, 'pTp-reduce-changes-map', 'reduce(P.T @ P)(x) differs from P.T(P(x))', cfg)
+                break
+    ctx.count(f'rule:rank{rank}')
+    ctx.count(f'rule:{mode}')
+    ctx.case(f'rule:{shape}:{axis}:{ish}:{vals}', len(set(pos_axis)) > 1 or size > 1,
+             sample={'rule': cfg, 'diagonal': got[:12]})
+
+
 def pack_case(ctx: Ctx, stream: str, i: int) -> None:
     from furax._base.linear import PackOperator
     from furax.landscapes import StokesPyTree
@@ -278,6 +372,9 @@ def run(ctx: Ctx) -> None:
     for i in range(260 if q else 6000):
         if ctx.want('index', i):
             one_case(ctx, 'index', i)
+    for i in range(160 if q else 4000):
+        if ctx.want('rule', i):
+            rule_case(ctx, 'rule', i)
     for i in range(40 if q else 600):
         if ctx.want('pack', i):
             pack_case(ctx, 'pack', i)
